@@ -42,6 +42,8 @@ def run(ctx):
     from . import c13
     c13.r17_categorical_expansion(ctx, rule="C10.R10")
     r11_representation_tables(ctx)
+    # re-keyed rewards / feedbacks and the logged action are found through `<actions>.index(<action>)`, i.e. through the equality of the row views Densify / Repr produce
+    c13.r18_equality_by_contents(ctx, rule="C10.R12")
     # re-encoding must not rewrite the old interaction (Repr compares new['actions'] with old['actions'] to decide whether to rebuild the rewards)
     from . import c04
     c04.r3_copy_before_mutate(ctx, rule="C10.R8", only={"EncodeCatRows"})
@@ -510,6 +512,7 @@ def r4_finalize(ctx):
 
 
 CONTROLS = [
+    ("views of one class over the same row compare equal unwalked", "coba/primitives.py", M.insert_before("Dense_.__eq__", lambda st: isinstance(st, ast.Try), "if o.__class__ is self.__class__ and o._row is self._row: return True"), "C10.R12"),
     ("Sparsify leaves reward functions on the old actions", EF, M.delete_stmt("Sparsify.filter", lambda st: isinstance(st, ast.For) and ast.unparse(st.target) == "target"), "C10.R1"),
     ("Noise leaves the logged action un-noised", EF, M.delete_stmt("Noise.filter", M.text_has("new['action'] = noisy_actions")), "C10.R2"),
     ("Flatten leaves the logged action nested", EF, M.delete_stmt("Flatten.filter", M.text_has("new['action'] = new['actions']")), "C10.R2"),
